@@ -25,7 +25,10 @@ Bad(r) ==
       auto == (mr.kind = "ok") => (O(r, "none").kind = "ok" /\ Same(O(r, "none"), mr))
       expl == /\ (mr.kind = "ok" /\ O(r, "cohorts").kind = "ok") => Same(O(r, "cohorts"), mr)
               /\ (mr.kind = "ok" /\ O(r, "blockwise").kind = "ok" /\ r.confined) => Same(O(r, "blockwise"), mr)
-      drift == \E i \in 1..4 : r.hascfg /\ ~(i = 4 /\ r.skipbw) /\ Outcome([r.cfg EXCEPT !.method = Methods[i]]).kind # r.out[i].kind
+      \* the plan recorded by the FLOX_VERIF hook ("plan" event) against the strategy the model resolves
+      drift == \E i \in 1..4 : r.hascfg /\ ~(i = 4 /\ r.skipbw) /\
+                 LET o == Outcome([r.cfg EXCEPT !.method = Methods[i]]) IN
+                 o.kind # r.out[i].kind \/ (o.kind = "ok" /\ r.out[i].plan \notin {"-", o.method})
   IN (IF clean THEN {} ELSE {"clean"}) \cup (IF auto THEN {} ELSE {"auto"}) \cup (IF expl THEN {} ELSE {"explicit"})
      \cup (IF drift THEN {"drift"} ELSE {})
 
